@@ -170,13 +170,94 @@ prop(
     TRUST,
 )
 
+from errd import rule_errd  # noqa: E402
+from exitrule import rule_exit  # noqa: E402
+from prov import rule_prov_assert, rule_prov_convert, rule_prov_simplify  # noqa: E402
+from sym import rule_sym_addsub, rule_sym_cmp  # noqa: E402
+
+ERRD_EXEMPT = {
+    ("run_without_cleanup", "jiff::Span::nanoseconds"): {
+        "reason": "argument is (seconds.fract() * 1e9).round(), |x| <= 1e9 by construction, inside the setter's range",
+        "shape": "fract",
+    },
+}
+
+
+def errd_datetime(ctx):
+    return rule_errd(ctx.lib, ["vm::Vm::run_without_cleanup"], ["numbat/src/ffi/datetime.rs", "numbat/src/datetime.rs"], ERRD_EXEMPT, min_fallible=23, min_bodies=17)
+
+
+def errd_control(ctx):
+    import controls
+    from core import RuleOut
+    from hirlib import Crate
+
+    c = Crate(controls.load())
+    probe = rule_errd(c, ["errd_controls"], [], {}, min_fallible=0, lib_prefix="crate::Fallible", err_type="crate::FErr", min_bodies=0)
+    bad = [f.detail for f in probe.findings if f.verdict == "violation"]
+    out = RuleOut("ERRD.control", "positive control for a rule whose expected count on numbat is zero")
+    if len(bad) == 3:
+        out.ok("control", "engine/nbfacts/controls/src/lib.rs", 1, "matcher fired on unwrap / expect / ok()-and-ignore")
+    else:
+        out.error("positive control failed: ERRD reported %d of 3 planted swallowed errors: %s" % (len(bad), bad))
+    return out
+
+
+prop(
+    "C04",
+    "Necessary-condition clauses of C04 (PROV): every success return of Quantity::convert_to builds its result with the `target_unit` parameter; the VM's ConvertTo arm converts the left operand (popped second; compiled first) to the unit of the right operand, marks the result no_simplify() and attaches the conversion target for display. So the result carries exactly U and is exempt from rewriting. Not decided: magnitude preservation, round trips, transitivity (numeric).",
+    [("PROV.convert", lambda ctx: rule_prov_convert(ctx.lib))],
+    TRUST,
+)
+
+prop(
+    "C05",
+    "Necessary-condition clause of C05 (PROV): simplification is not applied to a value whose unit the user chose — both full_simplify and full_simplify_with_registry test can_simplify before any rewriting step, the flag is written only by the constructors (true) and no_simplify() (false), and the rewriting functions are reachable only through Vm::simplify_quantity from the three display sites. Not decided: preservation of magnitude and dimension by the heuristics.",
+    [("PROV.simplify", lambda ctx: rule_prov_simplify(ctx.lib))],
+    TRUST,
+)
+
+prop(
+    "C11",
+    "Decides operand-role symmetry of the comparison implementation (SYM): in Quantity::eq / partial_cmp / partial_cmp_preserve_nan both operands are converted to a unit chosen by a symmetric selector (never one operand into the other's unit), NaN is detected for either operand before any conversion, and the VM arms read the ordering as mirror images (Less -> {<, <=}, Equal -> {<=, >=}, Greater -> {>, >=}, NaN -> false). Not decided: totality for non-NaN values (follows from f64 once both sides are in one unit).",
+    [("SYM.cmp", lambda ctx: rule_sym_cmp(ctx.lib))],
+    TRUST,
+)
+
+prop(
+    "C12",
+    "Decides operand-role symmetry of addition/subtraction (SYM): both operands are converted to Unit::smaller_unit(a.unit, b.unit), the selector returns the parameter with the smaller base-unit factor through one comparison over both factors, and the zero short-cuts are mirror images. Not decided: floating-point equality of the two orders.",
+    [("SYM.addsub", lambda ctx: rule_sym_addsub(ctx.lib))],
+    TRUST,
+)
+
+prop(
+    "C19",
+    "Necessary-condition clause of C19 ('out-of-range operations fail with an error instead of producing a wrong date') (ERRD): in the VM's date-time arms, ffi/datetime.rs and datetime.rs every call returning Result<_, jiff::Error> is propagated (`?`, map_err, returned) or branched on, never unwrapped / ok()-ignored, and no panicking or saturating jiff arithmetic is called (one exempt row with a bound argument). Not decided: the algebraic identities and the parse/format round trip.",
+    [("ERRD", errd_datetime), ("ERRD.control", errd_control)],
+    TRUST + ["jiff's checked_* / try_* APIs report out-of-range results as Err"],
+)
+
+prop(
+    "C21",
+    "Necessary-condition clauses of C21 (PROV/ABORT): assert breaks exactly on a false argument; assert_eq/2 converts the first argument to the unit of the second and decides with `==`; assert_eq/3 converts both to eps's unit and succeeds iff |a-b| <= eps; a Break from a procedure makes the VM dispatch loop return Err at once, so no later statement of the input runs. Not decided: float semantics of the comparison itself.",
+    [("PROV.assert", lambda ctx: rule_prov_assert(ctx.lib))],
+    TRUST,
+)
+
+prop(
+    "C22",
+    "Decides the exit-status / stream mechanism of the CLI (EXIT): every error kind of the interpretation result prints a diagnostic and yields exit_status_in_case_of_error() (Normal -> Break(Error)); the Ok arm prints only to stdout and yields Continue; in Cli::run a Break returns Err, a success maps to Ok(()), the result is the `.and`-accumulated status; main ends an Err in process::exit(1) after writing to stderr; file and -e sources flow through one parse_and_evaluate call site with the same mode, -e strings joined by newlines; Context::print_diagnostic writes to stderr. Not decided: the actual bytes written.",
+    [("EXIT", lambda ctx: rule_exit(ctx.bin, ctx.lib))],
+    TRUST,
+)
+
 NOT_APPLICABLE = {
     "C03": "numerical agreement of conversion factors over 500 units is a statement about run-time values; no structural clause is a necessary condition that is not already covered under C04/C11/C12 (static analysis cannot bound the arithmetic)",
     "C14": "a statement about the decimal rendering of every f64 under every format setting; the code delegates to pretty_dtoa/num_format and no structural clause of Number::pretty_print_with_dtoa_config can be decided without evaluating it",
     "C23": "numeric round trips over function domains; composing the .nbt function bodies algebraically would be symbolic evaluation, which is a different technique family",
     # temporarily unclaimed while their rules are being built (see DESIGN.md section 9)
-    "C04": "rule PROV under construction", "C05": "rule PROV under construction", "C10": "rule PREC under construction",
-    "C11": "rule SYM under construction", "C12": "rule SYM under construction", "C17": "nbtlint under construction",
-    "C19": "rule ERRD under construction", "C21": "rules ABORT/PROV under construction", "C22": "rule EXIT under construction",
+    "C10": "rule PREC under construction",
+    "C17": "nbtlint under construction",
     "C24": "nbtlint under construction",
 }
